@@ -11,6 +11,7 @@ Sibling cross-check of the assignment tracker (compiler/meta.rs) against the cod
     result under `!is_assigned(name)` and the result of find_undeclared derives from that set.
 Not decided: the implicit names (loop, self, super, caller) the tracker pre-assigns.
 """
+from ..facts import op_place
 from .. import cfg, flow, events, arms, errflow
 from ..facts import norm_path, op_place as op_place_
 
@@ -25,6 +26,41 @@ EXCLUDED = {
     ("Extends", "name"): "multi-template",
     ("Include", "name"): "multi-template",
 }
+
+
+def _none_is_overwritten_when_flag_set(f, o):
+    """`let mut v = None; if self.flag { v = Some(..) }`: the None definition (Origin o in f) reaches a return without
+    being overwritten only on paths on which some boolean field flag is false"""
+    st = f.stmts(o.bb)
+    if o.idx is None or o.idx >= len(st) or st[o.idx].get("k") != "assign" or "p" in st[o.idx]["place"]:
+        return False
+    l = st[o.idx]["place"]["l"]
+    # follow an immediate move into the user variable
+    for _ in range(3):
+        nxt = [(bb, i, s_) for bb, i, s_ in f.all_stmts() if s_.get("k") == "assign" and s_["rv"]["k"] == "use"
+               and "c" not in s_["rv"]["op"] and op_place(s_["rv"]["op"]) == {"l": l} and "p" not in s_["place"]]
+        if len(nxt) == 1 and not f.local_name(l):
+            l = nxt[0][2]["place"]["l"]
+        else:
+            break
+    kills = {d.bb for d in flow.whole_defs(f, l) if d.kind in ("stmt", "call") and d.bb != o.bb}
+    if not kills:
+        return False
+    rets = set(f.returns())
+    for sbb in f.reachable:
+        t = f.term(sbb)
+        if t["k"] != "switch":
+            continue
+        cd = flow.cond_of(f, sbb)
+        if cd.kind != "local" or not isinstance(cd.place, dict):
+            continue
+        if not any(isinstance(e, dict) and e.get("ty") == "bool" and "n" in e for e in cd.place.get("p", [])):
+            continue
+        false_edges = cfg.bool_edges(f, sbb, cd.neg)      # edges taken when the flag is false
+        reach = cfg.reach_from(f, o.bb, avoid=kills, removed_edges=false_edges)
+        if not (reach & rets):
+            return True
+    return False
 
 
 def run(ctx):
@@ -209,6 +245,8 @@ def run(ctx):
                             if any(x[0] == "local" and x[2] is False and isinstance(x[1], dict) and any(
                                     isinstance(e, dict) and e.get("ty") == "bool" and "n" in e for e in x[1].get("p", []))
                                    for x in gf):
+                                continue
+                            if _none_is_overwritten_when_flag_set(lf, lo):
                                 continue
                             bad.append("%s: None without a flag saying the body does not mention `%s`" % (lf.path.split("::")[-1], nm))
                             continue
